@@ -390,11 +390,26 @@ def r4(ctx):
     und = [n for n in g.nodes.values() if any(
         isinstance(c.func, ast.Attribute) and c.func.attr == "undeploy" and unparse(c.func.value) != "self" for c in n.calls())]
     ctx.require(len(und) == 1, "C26.R4: connector.undeploy call not found")
-    guards = [n for n in g.nodes.values() if n.kind == "test" and "dependency_graph[deployment_name]" in n.text(200)
-              and ("== 0" in n.text(200) or n.text(200).startswith("test(not "))]
+    from ..facts import atoms as _atoms4, expand_test as _expand4
+
+    def _empty_edge(t):
+        """edge kind of test t on which `dependency_graph[deployment_name]` is known to be empty (any spelling, through temporaries)"""
+        e = _expand4(f, t.ast)
+        for kind in ("t", "f"):
+            for a, v in _atoms4(e, kind == "t"):
+                txt = unparse(a)
+                if "dependency_graph[deployment_name]" not in txt:
+                    continue
+                core = txt.replace("self.dependency_graph[deployment_name]", "D")
+                if (v and core in ("len(D) == 0", "0 == len(D)", "len(D) < 1", "len(D) <= 0", "D == set()")) or \
+                        ((not v) and core in ("D", "len(D)", "len(D) > 0", "len(D) >= 1", "len(D) != 0", "0 < len(D)")):
+                    return kind
+        return None
+
+    guards = [n for n in g.nodes.values() if n.kind == "test" and n.ast is not None and _empty_edge(n)]
     ok = bool(guards) and any(
-        g.dominates(t.id, und[0].id) and und[0].id in g.reach([b for b, k in g.succ[t.id] if k == "t"], include_src=True)
-        and und[0].id not in g.reach([b for b, k in g.succ[t.id] if k == "f"], avoid=[t.id], include_src=True)
+        g.dominates(t.id, und[0].id) and und[0].id in g.reach([b for b, k in g.succ[t.id] if k == _empty_edge(t)], include_src=True)
+        and und[0].id not in g.reach([b for b, k in g.succ[t.id] if k in ("t", "f") and k != _empty_edge(t)], avoid=[t.id], include_src=True)
         for t in guards)
     ctx.ob("R4", "connector.undeploy only when the dependency set is empty", ok, func=f, node=und[0].ast,
            instance="undeploy:guard", message="the connector is undeployed while other deployments still depend on it")
@@ -414,8 +429,8 @@ def r4(ctx):
         and "dependency_graph[deployment_name]" not in unparse(c.func.value) for c in n.calls() if c.args)]
     ctx.require(bool(others), "C26.R4: removal of the deployment from the other dependency sets not found")
     for o in others:
-        okp = any(g.dominates(t.id, o.id) and o.id in g.reach(g.real_succ(t.id, "t"), include_src=True)
-                  and o.id not in g.reach([b for b, k in g.succ[t.id] if k == "f"], avoid=[t.id], include_src=True) for t in guards) \
+        okp = any(g.dominates(t.id, o.id) and o.id in g.reach(g.real_succ(t.id, _empty_edge(t)), include_src=True)
+                  and o.id not in g.reach([b for b, k in g.succ[t.id] if k in ("t", "f") and k != _empty_edge(t)], avoid=[t.id], include_src=True) for t in guards) \
             and g.dominates(und[0].id, o.id)
         ctx.ob("R4", "a deployment leaves the dependency sets of the others only after it was undeployed", okp, func=f, node=o.ast,
                instance="undeploy:withdraw-after-undeploy",
